@@ -410,6 +410,12 @@ def l_argsort(xs, ties_unspecified=False):
     With ties_unspecified (np.argsort without kind='stable') every order of
     tied values is explored: NumPy's default order of equal elements is not
     specified (and is not the stable one on this build)."""
+    if ties_unspecified and len(xs) and not any(is_sym(e) for e in xs):
+        # concrete operands: the library itself decides (also the order of equal elements)
+        try:
+            return [int(i) for i in np.argsort(np.array([float(e) for e in xs], dtype=float))]
+        except (TypeError, ValueError):
+            pass
     _used("sort(forking insertion sort)")
     idx = []
     for i in range(len(xs)):
